@@ -678,6 +678,21 @@ def run_eqtext(chk, F, rid="R-EQTEXT"):
             rets_false = any(r.get("k") == "return" and (strip(r.get("e")) or {}).get("v") is False for r in walk(n["then"]))
             if kind_test and sides == {"this", "other"} and rets_false:
                 ok = True
+        # ... and the type of the other node is asked only once the kinds are known to agree (a regression of my own
+        # first repair, found by a round-7 agent: `constant.equal(list of a query)` asked the childless LIST type whether
+        # it is an integer and crashed in type_t::is)
+        from ..inline import sites_with_conditions
+        def other_type(x):
+            return x.get("k") == "member" and x.get("name") == "type" and x.get("of", "").endswith("expression_data") and \
+                any(y.get("k") == "ref" and y.get("dk") == "param" for y in walk(x.get("base")))
+        for site, conds in sites_with_conditions(eqx["body"], other_type):
+            agreed = any((not t) and "kind" in short(c) and "!=" in short(c) for c, t in conds) or \
+                any(t and "kind" in short(c) and "==" in short(c) and "->kind" in short(c).split("==")[1] for c, t in conds)
+            chk.ob(rid, "equal|%s|kinds agree first" % K if False else "equal|type read after kinds agree", agreed,
+                   "expression_t::equal reads the type of the other node (line %s) before it has established that the two "
+                   "nodes have the same kind: the type of a node of another kind (the primitive LIST type of a query list) "
+                   "is asked a question of a constant's type, and type_t::is descends into a child it does not have" %
+                   site.get("l"), "%s:%s" % (eq["file"], site.get("l")), sample="the other node's type is read only after the kinds were compared")
         chk.ob(rid, "equal|%s" % K, ok,
                "expression_t::print chooses the text of a %s node by the type of the node (line %s), but expression_t::equal "
                "compares kind, value, symbol and children only: two %s nodes that differ in their type alone are equal and "
